@@ -7,6 +7,7 @@
 mod util;
 mod c03;
 mod c04;
+mod c10;
 mod c15;
 mod c16;
 mod c18;
@@ -36,6 +37,10 @@ fn eval(op: &str, args: &[&str]) -> Option<Vec<String>> {
         "tls" => tlsop::tls(args),
         "pool" => poolop::pool(args),
         "transports" => c18::transports(args),
+        "body" => c10::body(args),
+        "crlf" => c10::crlf(args),
+        "qp" => c10::qp(args),
+        "b64" => c10::b64(args),
         "sendmsg" => c18::sendmsg(args),
         "mailparam" => c04::mailparam(args),
         "ehlocmd" => c04::ehlocmd(args),
